@@ -261,3 +261,94 @@ def results_json():
     if bad:
         raise AssertionError(f'fields changed by the JSON round trip: {bad}')
     return True
+
+
+def _read_fixed(path):
+    """independent reader of a NONMEM table file: list of (title line, header, rows of strings)"""
+    tables = []
+    with open(path) as f:
+        for line in f:
+            if line.startswith('TABLE NO.'):
+                tables.append([line, None, []])
+            elif tables and tables[-1][1] is None:
+                tables[-1][1] = line.split()
+            elif tables and line.strip():
+                tables[-1][2].append(line.split())
+    return tables
+
+
+def parse_results():
+    """Concrete companion (sampling): read_modelfit_results on the repository's pheno_real run vs an independent
+    whitespace reader of the same .ext / .cov / .cor / .coi / .phi files: final estimates and standard errors are the
+    rows NONMEM designates, renamed to the model's parameter names in the model's order; OFV; covariance / correlation
+    (unit diagonal) / precision matrices cell by cell; individual OFVs and etas per ID; sd/corr estimates."""
+    import numpy as np
+    from pharmpy.model import Model
+    from pharmpy.tools import read_modelfit_results
+    import pharmpy
+    root = os.path.join(os.path.dirname(os.path.dirname(os.path.dirname(pharmpy.__file__))), 'tests', 'testdata', 'nonmem')
+    if not os.path.exists(os.path.join(root, 'pheno_real.mod')):
+        root = '/repo/tests/testdata/nonmem'
+    mod = os.path.join(root, 'pheno_real.mod')
+    model = Model.parse_model(mod)
+    res = read_modelfit_results(mod)
+    bad = []
+    ext = _read_fixed(os.path.join(root, 'pheno_real.ext'))[-1]
+    hdr = ext[1]
+    rows = {int(r[0]): [float(x) for x in r[1:]] for r in ext[2]}
+    fixed = rows.get(-1000000006, [0.0] * (len(hdr) - 1))
+    # NONMEM's column labels -> model parameter names: thetas in order, then omegas, then sigmas (model order)
+    labels = hdr[1:-1]
+    th = [lab for lab in labels if lab.startswith('THETA')]
+    om = [lab for lab in labels if lab.startswith('OMEGA')]
+    sg = [lab for lab in labels if lab.startswith('SIGMA')]
+    keep = [lab for lab in th + om + sg if fixed[labels.index(lab)] == 0.0]
+    names = list(model.parameters.nonfixed.names)
+    if len(keep) != len(names):
+        raise AssertionError(f'{len(keep)} estimated NONMEM parameters vs {len(names)} model parameters')
+    name_of = dict(zip(keep, names))
+    for what, it, ser in (('final estimates', -1000000000, res.parameter_estimates),
+                          ('standard errors', -1000000001, res.standard_errors),
+                          ('sd/corr estimates', -1000000004, res.parameter_estimates_sdcorr)):
+        if list(ser.index) != names:
+            bad.append(f'{what}: index {list(ser.index)}')
+            continue
+        for lab in keep:
+            # the sd/corr row carries omegas and sigmas only; the thetas there are the final estimates
+            want = rows[-1000000000 if (it == -1000000004 and lab.startswith('THETA')) else it][labels.index(lab)]
+            if float(ser[name_of[lab]]) != want:
+                bad.append(f'{what}[{name_of[lab]}] = {float(ser[name_of[lab]])}, file has {want}')
+    if float(res.ofv) != rows[-1000000000][-1]:
+        bad.append(f'ofv {res.ofv} vs {rows[-1000000000][-1]}')
+    for suffix, mat in (('.cov', res.covariance_matrix), ('.cor', res.correlation_matrix), ('.coi', res.precision_matrix)):
+        t = _read_fixed(os.path.join(root, 'pheno_real' + suffix))[-1]
+        cols = t[1][1:]
+        cell = {(r[0], c): float(v) for r in t[2] for c, v in zip(cols, r[1:])}
+        if list(mat.index) != names or list(mat.columns) != names:
+            bad.append(f'{suffix}: labels {list(mat.index)}')
+            continue
+        for a in keep:
+            for b in keep:
+                want = cell[(a, b)]
+                if suffix == '.cor' and a == b:
+                    want = 1.0            # NONMEM prints the standard error on the diagonal; pharmpy reports 1
+                got = float(mat.loc[name_of[a], name_of[b]])
+                if abs(got - want) > 1e-12 * max(1.0, abs(want)):
+                    bad.append(f'{suffix}[{a},{b}] = {got}, file has {want}')
+    phi = _read_fixed(os.path.join(root, 'pheno_real.phi'))[-1]
+    ph = phi[1]
+    for r in phi[2][:10]:
+        i = int(r[ph.index('ID')])
+        if float(res.individual_ofv[i]) != float(r[ph.index('OBJ')]):
+            bad.append(f'iofv[{i}]')
+        etas = [float(r[ph.index(c)]) for c in ph if c.startswith('ETA(')]
+        if [float(x) for x in res.individual_estimates.loc[i]] != etas:
+            bad.append(f'individual estimates[{i}]')
+    # defining relations between the reported matrices (tolerances of printed 6-digit numbers)
+    se = res.standard_errors.to_numpy()
+    cov = res.covariance_matrix.to_numpy()
+    if not np.allclose(np.sqrt(np.diag(cov)), se, rtol=1e-4):
+        bad.append('standard errors are not the square roots of the covariance diagonal')
+    if bad:
+        raise AssertionError('; '.join(bad[:6]))
+    return True
